@@ -1723,6 +1723,10 @@ impl SparqlDatabase {
                     predicate.clear();
                     current_state = "predicate";
                 }
+                "," => {
+                    // Object list: the next object shares subject and predicate
+                    current_state = "object";
+                }
                 "." => {
                     // End of statement
                     break;
